@@ -86,6 +86,18 @@ def build():
                                 cases.append({'sql': sql, 'spec': spec, 'tab': tab, 'cols': cols, 'window': window,
                                               'gcols': gcols, 'cond': ck, 'side': side, 'limit': limit, 'pf': pf, 'ng': ng,
                                               'shape': shape})
+    # the data side written as a sub-select with its own (larger) LIMIT: the statement's LIMIT is still the one applied after the join
+    for ng, (tab, cols, gcols) in GROUPS.items():
+        for window in (1, 2):
+            for ck in ('>', 'none', '<'):
+                for limit in (1, 2):
+                    ctext, cspec = CONDS[ck]
+                    sql = 'select * from (select * from int1.%s limit 10) as t join mindsdb.m as m%s limit %d' % (
+                        tab, (' where ' + ctext) if ctext else '', limit)
+                    spec = dict(cspec, on=1, window=window, tcol='ts', gcols=gcols, pf=[])
+                    cases.append({'sql': sql, 'spec': spec, 'tab': tab, 'cols': cols, 'window': window, 'gcols': gcols, 'cond': ck,
+                                  'side': 'right', 'limit': limit, 'pf': [], 'ng': ng, 'shape': 'subselect-data-inner-limit',
+                                  'structural_only': True})
     # the same joins executed as prepared statements: a partition filter written as an IN list that mixes a placeholder with a
     # literal and covers every partition (so it filters nothing), the time bound given as a parameter
     for ng, (tab, cols, gcols) in GROUPS.items():
@@ -188,6 +200,9 @@ def _plan(c):
     ji = kinds.index('JoinStep') if 'JoinStep' in kinds else -1
     out['limit_after_join'] = ('LimitOffsetStep' in kinds[ji + 1:]) if ji >= 0 else False
     out['limit_value'] = next((getattr(s.limit, 'value', s.limit) for s in plan.steps if type(s).__name__ == 'LimitOffsetStep'), None)
+    if c.get('structural_only'):
+        out['status'] = 'structural-only'
+        return out
     try:
         steps = sem.plan_steps(plan, upto='ApplyTimeseriesPredictorStep')
     except sem.Unsupported as e:
@@ -239,8 +254,8 @@ def run(ctx):
                           pin=(p['sql'], 'refused'))
         elif st in ('no-single-apply', 'model-input-is-not-the-data-step'):
             ctx.violation('%s:%s' % (st, coord), st, {'sql': p['sql'], 'steps': p.get('kinds')}, pin=(p['sql'], st))
-        elif st == 'ok':
-            if not p['otf_ok']:
+        elif st in ('ok', 'structural-only'):
+            if not p['otf_ok'] and st == 'ok':
                 ctx.violation('output-filter-not-the-users-condition:%s' % p['cond'],
                               'the output time filter handed to the model step is not the user\'s time condition',
                               {'sql': p['sql'], 'output_time_filter': p['otf']}, pin=(p['sql'], p['otf']))
@@ -249,7 +264,8 @@ def run(ctx):
                 ctx.violation('limit-step:%s' % ('missing-or-wrong' if want_limit else 'spurious'),
                               'LIMIT must be applied after the join (and only when the query has one)',
                               {'sql': p['sql'], 'steps': p['kinds']}, pin=(p['sql'], [p['limit_after_join'], p['limit_value']]))
-            ok.append(p)
+            if st == 'ok':
+                ok.append(p)
     for sql in REFUSED:
         r = _refused(sql)
         if r != 'PlanningException':
